@@ -448,39 +448,92 @@ func Word(t *rapid.T, k int, maxLen int) []int {
 	return w
 }
 
-// Nested: a rectangle with a C shaped hole (an annulus with a slit of generated width: below a pixel it closes on snapping,
-// which pinches an island off) and optionally a small hole inside the island and a second, deeper C. Mirrored/transposed at random.
-// Returns shell first, then holes; all rings simple and mutually disjoint by construction.
+// Nested: a rectangle with C shaped holes (an annulus with a slit of generated width: below a pixel it closes on snapping,
+// which pinches an island off). Islands recursively hold further C shaped holes (side by side and nested, up to three deep) or a
+// plain rectangular hole, so that snapping creates several nested and sibling shells. Mirrored/transposed at random.
+// Returns shell first, then holes; all rings are simple and mutually disjoint by construction.
 func Nested(t *rapid.T, q int64) [][]P {
-	m := func(label string, lo, hi int64) int64 { return rapid.Int64Range(lo, hi).Draw(t, label) }
-	var rings [][]P
-	// from outside to inside, each margin at least 1 lattice step
-	x0, y0 := int64(0), int64(0)
-	w := m("islandW", 2*q, 8*q)
-	h := m("islandH", 2*q, 8*q)
-	a, b, c2 := m("wallOuter", 1, 2*q), m("wallC", 1, 2*q), m("moat", 1, 2*q)
-	// rectangles: R0 shell, R1 outer edge of C, R2 inner edge of C (= island boundary)
-	t1 := a
-	t2 := a + b
-	W, H := w+2*(a+b), h+2*(a+b)
-	_ = c2
-	rings = append(rings, []P{{x0, y0}, {x0 + W, y0}, {x0 + W, y0 + H}, {x0, y0 + H}})
-	x1, y1, X1, Y1 := x0+t1, y0+t1, x0+W-t1, y0+H-t1
-	x2, y2, X2, Y2 := x0+t2, y0+t2, x0+W-t2, y0+H-t2
-	slit := m("slit", 1, q+q/2)
-	if slit > (Y2-y2)-2 {
-		slit = max((Y2-y2)-2, 1)
+	var holes [][]P
+	// fill places holes inside the free rectangle [x0,x1]x[y0,y1] (all holes keep a margin of >= 1 lattice step to it)
+	var fill func(x0, y0, x1, y1 int64, depth int)
+	cshape := func(x1, y1, X1, Y1, wall int64, slitSide int) (ix0, iy0, ix1, iy1 int64, ok bool) {
+		x2, y2, X2, Y2 := x1+wall, y1+wall, X1-wall, Y1-wall
+		if X2-x2 < 3 || Y2-y2 < 3 {
+			return 0, 0, 0, 0, false
+		}
+		slit := rapid.Int64Range(1, q+q/2).Draw(t, "slit")
+		var ring []P
+		if slitSide == 0 { // slit in the right wall
+			slit = min(slit, (Y2-y2)-2)
+			ys := rapid.Int64Range(y2+1, Y2-slit-1).Draw(t, "slitPos")
+			ring = []P{{X1, ys + slit}, {X1, Y1}, {x1, Y1}, {x1, y1}, {X1, y1}, {X1, ys}, {X2, ys}, {X2, y2}, {x2, y2}, {x2, Y2}, {X2, Y2}, {X2, ys + slit}}
+		} else { // slit in the top wall
+			slit = min(slit, (X2-x2)-2)
+			xs := rapid.Int64Range(x2+1, X2-slit-1).Draw(t, "slitPos")
+			ring = []P{{xs, Y1}, {x1, Y1}, {x1, y1}, {X1, y1}, {X1, Y1}, {xs + slit, Y1}, {xs + slit, Y2}, {X2, Y2}, {X2, y2}, {x2, y2}, {x2, Y2}, {xs, Y2}}
+		}
+		holes = append(holes, ring)
+		return x2, y2, X2, Y2, true
 	}
-	ys := m("slitPos", y2+1, max(Y2-slit-1, y2+1))
-	cring := []P{{X1, ys + slit}, {X1, Y1}, {x1, Y1}, {x1, y1}, {X1, y1}, {X1, ys}, {X2, ys}, {X2, y2}, {x2, y2}, {x2, Y2}, {X2, Y2}, {X2, ys + slit}}
-	rings = append(rings, cring)
-	if rapid.IntRange(0, 3).Draw(t, "islandHole") > 0 && X2-x2 >= 4 && Y2-y2 >= 4 {
-		hx := m("hx", x2+1, X2-3)
-		hy := m("hy", y2+1, Y2-3)
-		hw := m("hw", max((X2-1-hx)/2, 1), X2-1-hx)
-		hh := m("hh", max((Y2-1-hy)/2, 1), Y2-1-hy)
-		rings = append(rings, []P{{hx, hy}, {hx + hw, hy}, {hx + hw, hy + hh}, {hx, hy + hh}})
+	fill = func(x0, y0, x1, y1 int64, depth int) {
+		w, h := x1-x0, y1-y0
+		if w < 5 || h < 5 || len(holes) >= 9 {
+			return
+		}
+		kind := rapid.IntRange(0, 3).Draw(t, "fill")
+		if depth >= 3 || w < 3*q || h < 3*q {
+			kind = 0
+		}
+		switch kind {
+		case 0: // a plain hole (sometimes none)
+			if rapid.IntRange(0, 3).Draw(t, "plainHole") == 0 {
+				return
+			}
+			hx := rapid.Int64Range(x0+1, x1-3).Draw(t, "hx")
+			hy := rapid.Int64Range(y0+1, y1-3).Draw(t, "hy")
+			hw := rapid.Int64Range(max((x1-1-hx)/2, 1), x1-1-hx).Draw(t, "hw")
+			hh := rapid.Int64Range(max((y1-1-hy)/2, 1), y1-1-hy).Draw(t, "hh")
+			holes = append(holes, []P{{hx, hy}, {hx + hw, hy}, {hx + hw, hy + hh}, {hx, hy + hh}})
+		case 1, 2: // one C
+			m := rapid.Int64Range(1, q).Draw(t, "moat")
+			wall := rapid.Int64Range(1, q+q/2).Draw(t, "wall")
+			if a, b, c, d, ok := cshape(x0+m, y0+m, x1-m, y1-m, wall, rapid.IntRange(0, 1).Draw(t, "slitSide")); ok {
+				fill(a, b, c, d, depth+1)
+			}
+		case 3: // two Cs side by side
+			m := rapid.Int64Range(1, q).Draw(t, "moat")
+			wall := rapid.Int64Range(1, q).Draw(t, "wall")
+			mid := x0 + w/2
+			if a, b, c, d, ok := cshape(x0+m, y0+m, mid-m, y1-m, wall, rapid.IntRange(0, 1).Draw(t, "slitSideL")); ok {
+				fill(a, b, c, d, depth+1)
+			}
+			if a, b, c, d, ok := cshape(mid+m, y0+m, x1-m, y1-m, wall, rapid.IntRange(0, 1).Draw(t, "slitSideR")); ok {
+				fill(a, b, c, d, depth+1)
+			}
+		}
 	}
+	W := rapid.Int64Range(5*q, 16*q).Draw(t, "shellW")
+	H := rapid.Int64Range(5*q, 12*q).Draw(t, "shellH")
+	// the outermost level always has a C, so that an island exists
+	m := rapid.Int64Range(1, q).Draw(t, "moat0")
+	wall := rapid.Int64Range(1, q+q/2).Draw(t, "wall0")
+	if rapid.Bool().Draw(t, "twoOuterCs") && W >= 8*q {
+		mid := W / 2
+		if a, b, c, d, ok := cshape(m, m, mid-m, H-m, wall, rapid.IntRange(0, 1).Draw(t, "slitSideL0")); ok {
+			fill(a, b, c, d, 1)
+		}
+		if a, b, c, d, ok := cshape(mid+m, m, W-m, H-m, wall, rapid.IntRange(0, 1).Draw(t, "slitSideR0")); ok {
+			fill(a, b, c, d, 1)
+		}
+	} else if a, b, c, d, ok := cshape(m, m, W-m, H-m, wall, rapid.IntRange(0, 1).Draw(t, "slitSide0")); ok {
+		fill(a, b, c, d, 1)
+	}
+	// the order in which the holes are listed is arbitrary: shuffle (the enclosing C may come after the enclosed one)
+	for i := len(holes) - 1; i > 0; i-- {
+		j := rapid.IntRange(0, i).Draw(t, "shuffle")
+		holes[i], holes[j] = holes[j], holes[i]
+	}
+	rings := append([][]P{{{0, 0}, {W, 0}, {W, H}, {0, H}}}, holes...)
 	// random symmetry
 	tr := rapid.IntRange(0, 7).Draw(t, "symmetry")
 	for _, r := range rings {
